@@ -347,26 +347,38 @@ def apply_edit(case, rng):
     return None
 
 
-def mesh_description(case, perm):
-    """what the form says about meshes, with mesh k renamed perm[k]: used fields -> mesh, integrals with their mesh"""
+def mesh_description(case, b, fe, perm):
+    """what the *built* form says about meshes, with mesh k renamed perm[k]: surviving fields -> mesh, surviving
+    integrals with their mesh, meshes of the geometric quantities (fields and integrals that construction folded away
+    -- f**0, a fixed component of a list tensor, zero integrands -- say nothing)"""
     import json
 
-    used = sorted(n for n, f in case["world"]["fields"].items() if str(["fld", n]) in str(case["integrals"]) or
-                  any(str(["fld", n]) in str(v) for v in case.get("vars", ())))
-    fields = {n: perm[int(case["world"]["fields"][n].get("mesh", 0))] for n in used if case["world"]["fields"][n]["kind"] != "arg"}
-    args = {n: perm[int(case["world"]["fields"][n].get("mesh", 0))] for n in used if case["world"]["fields"][n]["kind"] == "arg"}
-    itgs = sorted(json.dumps([perm[int(i.get("mesh", 0))], i["itype"], i["sid"], i["md"], i["expr"]], sort_keys=True) for i in case["integrals"])
-    dumped = json.dumps([case["integrals"], case.get("vars", [])])
-    geo = '["x"]' in dumped or '["geo"' in dumped  # (x and geometric quantities belong to mesh 0)
-    return json.dumps([fields, args, itgs, perm[0] if geo else None], sort_keys=True)
+    from ufl.classes import GeometricQuantity, Zero
+    from ufl.corealg.traversal import traverse_unique_terminals
+
+    form, exprs = fe
+    names = {id(t): n for n, t in b.fields.items()}
+    fields, geo = {}, set()
+    itgs = []
+    for k, (i, x) in enumerate(zip(case["integrals"], exprs)):
+        if isinstance(x, Zero):
+            continue
+        for t in traverse_unique_terminals(x):
+            if id(t) in names:
+                n = names[id(t)]
+                fields[n] = perm[int(case["world"]["fields"][n].get("mesh", 0))]
+            elif isinstance(t, GeometricQuantity):
+                geo.add(perm[b.meshes.index(t.ufl_domain())])
+        itgs.append(json.dumps([perm[int(i.get("mesh", 0))], i["itype"], i["sid"], i["md"], i["expr"]], sort_keys=True))
+    return json.dumps([fields, sorted(itgs), sorted(geo)], sort_keys=True)
 
 
-def mesh_equivalent(c1, c2):
+def mesh_equivalent(c1, b1, fe1, c2, b2, fe2):
     import itertools
 
     nm = int(c1["world"].get("nmesh", 1))
-    d1 = mesh_description(c1, list(range(nm)))
-    return any(mesh_description(c2, list(p)) == d1 for p in itertools.permutations(range(nm)))
+    d1 = mesh_description(c1, b1, fe1, list(range(nm)))
+    return any(mesh_description(c2, b2, fe2, list(p)) == d1 for p in itertools.permutations(range(nm)))
 
 
 def noise(n):
@@ -463,7 +475,7 @@ def check_case(case):
         return {"nontrivial": False, "labels": labels + ["edit-empties-form"]}
     provable = kind == "data"
     if kind == "meshes":
-        provable = not mesh_equivalent(case, c2)
+        provable = not mesh_equivalent(case, b1, fe1, c2, b2, fe2)
         # ... and the edited entity must have survived construction (f**0, grad of a constant, ... fold away)
         from ufl.classes import Zero
         from ufl.corealg.traversal import traverse_unique_terminals
